@@ -55,7 +55,12 @@ impl BlockFormatter for BlockIndentRemover {
             }
             None => 0,
         };
+        // Step over the character behind the removed opening part (usually a line break) as a whole:
+        // it may be a multi-byte character when a merged child element ends in the middle of a line.
         let mut current_pos = start_byte_pos + 1;
+        while current_pos < content.len() && !content.is_char_boundary(current_pos) {
+            current_pos += 1;
+        }
         let first_indent_len = get_indent_len(content, current_pos);
         let indent_len = first_indent_len.saturating_sub(indent_ofs);
 
